@@ -41,6 +41,18 @@ Judge(e) ==
       [] e.fn = "decode_blob" ->
            LET exp == Sub(e.buf, e.off, BlobUnit(e.kind) * e.len) IN
            IF e.out = exp THEN <<>> ELSE <<"BlobGet", ToJson(exp)>>
+      \* several blobs (bytes, words, dwords, in the order given) written by ONE call: each lands in its own bytes,
+      \* whatever kind the blob before it had
+      [] e.fn = "encode_blobs" ->
+           LET RECURSIVE PutSeq(_, _)
+               PutSeq(buf, i) == IF i > Len(e.blobs) THEN buf
+                                 ELSE PutSeq(PutBlob(buf, e.blobs[i].off, e.blobs[i].value), i + 1)
+               exp == PutSeq(e.before, 1) IN
+           IF Len(e.after) # Len(e.before) THEN <<"BufferLengthKept", ToJson(Len(e.after))>>
+           ELSE IF e.after = exp THEN <<>> ELSE <<"BlobPut", ToJson(exp)>>
+      \* a decoded blob is a value of its own: editing it leaves the buffer alone, editing the buffer leaves it alone
+      [] e.fn = "blob_snapshot" ->
+           IF e.buf_now = e.buf /\ e.out_now = e.out THEN <<>> ELSE <<"BlobSnapshot", ToJson(e.buf)>>
       [] OTHER -> <<"UnknownEvent", "">>
 
 Init == l = 1
